@@ -335,3 +335,23 @@ Example int_key_is_error :
   /\ spec_to_go 9 te_ex nL (SRec 0 [108] [([110], SInt 7); ([0; 73; 53], SInt 1)]) = SErr 1
   /\ to_go 9 te_ex nF (SRec 1 [102] [([112], SRec 0 [108] [([0; 67; 57; 55], SInt 1)])]) = Err.
 Proof. repeat split; vm_compute; reflexivity. Qed.
+
+(* ---- fifth round: an embedded struct addressed both by its own key and through promoted names ---------- *)
+
+Theorem struct_valued_slot_keeps_untouched : forall f te top tname cur id tn fs st d b st' q,
+    cache_find id st = None -> find_reg te tn = Some d ->
+    conv (S f) te top (TStruct tname) cur (SRec id tn fs) st = Ok (b, st') ->
+    (forall p, In p (res_paths (resolve_key f te (s_name d)) fs) -> is_prefix p q = false /\ is_prefix q p = false) ->
+    get_path b q = get_path cur q.
+Proof. exact struct_slot_keeps_untouched. Qed.
+Print Assumptions struct_valued_slot_keeps_untouched.
+
+(* (base i:4 D:(deep P:9)) and (base D:(deep P:9) i:4): both orders give Base{Deep{9}, 4}; model = specification *)
+Example embedded_whole_and_promoted :
+  (exists st, to_go 9 te_ex nB (SRec 1 [98] [([105], SInt 4); ([68], SRec 0 [100] [([80], SInt 9)])])
+              = Ok (GPtr (Some 0%nat), st) /\ nth_error (heap st) 0 = Some (GStruct nB [GStruct nD [GInt 9]; GInt 4]))
+  /\ (exists st, to_go 9 te_ex nB (SRec 1 [98] [([68], SRec 0 [100] [([80], SInt 9)]); ([105], SInt 4)])
+              = Ok (GPtr (Some 0%nat), st) /\ nth_error (heap st) 0 = Some (GStruct nB [GStruct nD [GInt 9]; GInt 4]))
+  /\ spec_to_go 9 te_ex nB (SRec 1 [98] [([105], SInt 4); ([68], SRec 0 [100] [([80], SInt 9)])])
+     = SOk (DPtr 1 (DStruct nB [DStruct nD [DInt 9]; DInt 4])).
+Proof. repeat split; try (eexists; split; vm_compute; reflexivity); vm_compute; reflexivity. Qed.
